@@ -107,3 +107,57 @@ def obligations():
                                   info={'case': 'rounding', 'op': label}))
             break
     return obs, sha
+
+
+def obligations_reduce():
+    """C20: X.__reduce__() of the three rounding decorators returns (X, (tol,)) with the very tolerance X was built with -- None (rounding
+    disabled) included -- so  X(*args)  rebuilds the same rounding; the closure `func` that dill copies by value holds X in its cell."""
+    I = Engine()
+    tree, sha, _ = intake.load('rounding.py')
+    st = State()
+    meid = I.load_module(st, 'klepto.rounding', tree)
+    obs = []
+    TOL = Opaque(z3.Const('tol', Val))
+    for clsname in ('deep_round', 'simple_round', 'shallow_round'):
+        fn = 'rounding:%s.__reduce__' % clsname
+        cls = st.lookup(meid, clsname)
+
+        def add(clause, ok, why='', label=''):
+            obs.append(Obligation('%s/%s' % (fn, clause), [], z3.BoolVal(bool(ok)), prop='C20', func=fn, path=(label + ' ' + why)[:200],
+                                  info={'case': 'rounding', 'op': 'reduce'}))
+        if not isinstance(cls, ClassV):
+            add('found', False)
+            continue
+        for tolv, label in ((NONE, 'tol=None'), (TOL, 'tol given')):
+            try:
+                I.cur_func = fn
+                r = I.call(st.fork(), cls, CallArgs([tolv]))
+                if len(r) != 1 or isinstance(r[0][1], Exc):
+                    add('construction_succeeds', False, repr([x for _, x in r]), label)
+                    continue
+                s1, dec = r[0]
+                r = I.call_method(s1, dec, '__reduce__', CallArgs([]))
+                if len(r) != 1 or isinstance(r[0][1], Exc):
+                    add('returns_class_and_arguments', False, repr([x for _, x in r]), label)
+                    continue
+                res = r[0][1]
+                ok = isinstance(res, TupleV) and len(res.items) == 2 and res.items[0] is cls and isinstance(res.items[1], TupleV)
+                add('returns_class_and_arguments', ok, repr(res), label)
+                if not ok:
+                    continue
+                args = res.items[1].items
+                same = len(args) == 1 and ((isinstance(tolv, NoneV) and isinstance(args[0], NoneV)) or
+                                           (isinstance(tolv, Opaque) and isinstance(args[0], Opaque) and z3.eq(args[0].term, tolv.term)))
+                add('arguments_are_the_tolerance', same, repr(args), label)
+                # and the reconstruction records that tolerance again
+                r2 = I.call(r[0][0], cls, CallArgs(list(args)))
+                if len(r2) != 1 or isinstance(r2[0][1], Exc):
+                    add('reconstruction_succeeds', False, repr([x for _, x in r2]), label)
+                    continue
+                s3, dec2 = r2[0]
+                r3 = I.call_method(s3, dec2, '__reduce__', CallArgs([]))
+                add('reconstruction_reduces_alike', len(r3) == 1 and repr(r3[0][1]) == repr(res), '', label)
+            except Unsupported as e:
+                obs.append(Obligation(fn + '/supported', [], z3.BoolVal(False), prop='C20', func=fn, path='%s: %s' % (label, e),
+                                      info={'case': 'rounding', 'op': label, 'unsupported': str(e)}))
+    return obs, sha
